@@ -1,233 +1,486 @@
-import RV.Proofs.Particles
+import RV.Proofs.ParticlesDcrit
 /-
   Operation-level lemmas for C14: every operation of RV/Model/Particles.lean keeps the storage
-  invariant, never faults, and — outside the call shapes of findings F4/F18 — does on the
-  abstract list exactly what `Spec` says.
+  invariant, faults only in the call shape of finding F4g, and — outside the call shapes of the
+  findings F4/F18 — does on the abstract machine exactly what `Spec` says.  Tree mode's second phase
+  (eviction of flagged particles by the tree update) and the MERCURIUS side array included.
 -/
 set_option linter.unusedVariables false
 set_option linter.unusedSimpArgs false
 namespace RV.Particles
 
 
-/-- storage invariant: the allocation is what `N_allocated` says and holds all live particles -/
-def Inv (c : State) : Prop := c.mem.length = c.nAlloc ∧ c.N ≤ c.nAlloc
+theorem inv_dcrit (c : State) (d : List Nat) : Inv { c with dcrit := d } ↔ Inv c := Iff.rfl
 
-instance (c : State) : Decidable (Inv c) := inferInstanceAs (Decidable (_ ∧ _))
+theorem removeCore_removed_valid (v : Variant) (c : State) (i : Int) (ks : Bool)
+    (h : (removeCore v c i ks).2 = Out.removed) : ¬ rangeBad c i = true := by
+  intro hb
+  rw [removeCore_eq, if_pos hb] at h
+  split at h <;> simp [removeShortcut] at h
 
-theorem Inv.le {c : State} (h : Inv c) : c.N ≤ c.mem.length := by have := h.1; have := h.2; omega
+theorem Spec.removeCore_removed (s : Spec) (i : Int) (ks : Bool) (h0 : 0 ≤ i) (h1 : i < (s.ps.length : Int))
+    (hN : s.ps.length ≠ 1) (hv : s.nVar = 0) (ht : s.treeRoot = false) :
+    (s.removeCore i ks).2 = Out.removed := by
+  unfold Spec.removeCore
+  rw [if_neg (by omega), if_neg hN]
+  unfold Spec.removeMany
+  rw [if_neg (by simp [hv])]
+  split
+  · simp [ht]
+  · simp only [ht, Bool.false_eq_true, if_false]
+    have : s.ps ≠ [] := by intro h; rw [h] at h1; simp at h1; omega
+    cases hl : s.ps.getLast? with
+    | none => exact absurd (List.getLast?_eq_none_iff.mp hl) this
+    | some l => rfl
 
-theorem abs_len {c : State} (h : Inv c) : (abs c).ps.length = c.N := by
-  have := h.le; simp [abs, List.length_take]; omega
+/-- where the source variant `v` can answer `fault` (leave the `dcrit` allocation) -/
+def NoFaultRemove (v : Variant) (c : State) (i : Int) : Prop :=
+  (v.dcritBounded = true ∨ ¬ Overrun c i) ∧
+  (v.dcritWithParticles = true ∨ v.rangeFirst = true ∨ c.mercurius = false ∨ rangeBad c i = false)
 
-/-! ### add -/
+/-- the call shapes in which variant `v` departs from the documented behaviour -/
+def NoShapeRemove (v : Variant) (c : State) (i : Int) (ks : Bool) : Prop :=
+  NoShapeCore v c i ks ∧ NoFaultRemove v c i ∧
+  (v.dcritWithParticles = true ∨ c.mercurius = false ∨ c.dcrit = [] ∨ c.N = 1 ∨
+    (c.nVar = 0 ∧ c.treeRoot = false) ∨ rangeBad c i = true)
+
+theorem NoShapeRemove.repaired (c : State) (i : Int) (ks : Bool) : NoShapeRemove Variant.repaired c i ks :=
+  ⟨NoShapeCore.repaired c i ks, ⟨Or.inl rfl, Or.inl rfl⟩, Or.inl rfl⟩
+
+theorem dcritShift_not_merc (v : Variant) (c : State) (i : Int) (h : c.mercurius = false) :
+    dcritShift v c i = some c := by
+  unfold dcritShift; simp [h]
+
+theorem remove_spec (v : Variant) (c : State) (hinv : Inv c) (i : Int) (ks : Bool) :
+    Inv (remove v c i ks).1 ∧ (NoFaultRemove v c i → (remove v c i ks).2 ≠ Out.fault) ∧
+    (NoShapeRemove v c i ks → (abs (remove v c i ks).1, (remove v c i ks).2) = (abs c).remove i ks) := by
+  have hlen := abs_len hinv
+  obtain ⟨k1, k2, k3⟩ := removeCore_spec v c hinv i ks
+  have hkeep := removeCore_keeps_dcrit v c i ks
+  -- the abstract side, given the core refinement
+  have hspec : NoShapeCore v c i ks → ∀ d, d = (if c.mercurius then dcritErased c.dcrit c.N i else c.dcrit) →
+      (removeCore v c i ks).2 = Out.removed →
+      (abs { (removeCore v c i ks).1 with dcrit := d }, (removeCore v c i ks).2) = (abs c).remove i ks := by
+    intro hs d hd hrem
+    have e := k3 hs
+    unfold Spec.remove
+    rw [← e]
+    simp only [hrem, true_and]
+    have hm : (abs c).mercurius = c.mercurius := rfl
+    have hdc : (abs c).dcrit = c.dcrit := rfl
+    rw [hm, hdc, hlen]
+    cases hmm : c.mercurius
+    · simp only [Bool.false_eq_true, if_false]
+      rw [hmm] at hd; simp only [Bool.false_eq_true, if_false] at hd
+      rw [hd, ← hkeep]
+    · simp only [if_true]
+      rw [hmm] at hd; simp only [if_true] at hd
+      rw [hd]; rfl
+  have hspec' : NoShapeCore v c i ks → (removeCore v c i ks).2 ≠ Out.removed →
+      (abs (removeCore v c i ks).1, (removeCore v c i ks).2) = (abs c).remove i ks := by
+    intro hs hrem
+    have e := k3 hs
+    unfold Spec.remove
+    rw [← e]
+    simp only [hrem, false_and, if_false]
+  unfold remove
+  by_cases hW : v.dcritWithParticles = true
+  · rw [if_pos hW]
+    simp only []
+    by_cases hrem : (removeCore v c i ks).2 = Out.removed
+    · rw [if_pos hrem]
+      have hval := removeCore_removed_valid v c i ks hrem
+      have hr : 0 ≤ i ∧ i < (c.N : Int) := by
+        have : ¬ (i < 0 ∨ i ≥ (c.N : Int)) := fun h => hval ((rangeBad_iff c i).mpr h)
+        omega
+      cases hds : dcritShift v c i with
+      | none =>
+        refine ⟨hinv, fun hnf => ?_, fun hs => ?_⟩
+        · obtain ⟨d, e1, _⟩ := dcritShift_spec v c i hr.1 hr.2 hnf.1
+          rw [e1] at hds; simp at hds
+        · obtain ⟨d, e1, _⟩ := dcritShift_spec v c i hr.1 hr.2 hs.2.1.1
+          rw [e1] at hds; simp at hds
+      | some c1 =>
+        simp only []
+        refine ⟨(inv_dcrit _ _).mpr k1, fun _ => by rw [hrem]; simp, fun hs => ?_⟩
+        obtain ⟨d, e1, e2⟩ := dcritShift_spec v c i hr.1 hr.2 hs.2.1.1
+        rw [e1] at hds; simp at hds; subst hds
+        exact hspec hs.1 d e2 hrem
+    · rw [if_neg hrem]
+      exact ⟨k1, fun _ => k2, fun hs => hspec' hs.1 hrem⟩
+  · rw [if_neg hW]
+    by_cases hb : (v.rangeFirst && rangeBad c i) = true
+    · rw [if_pos hb]
+      simp only [Bool.and_eq_true] at hb
+      refine ⟨hinv, fun _ => by simp, fun hs => ?_⟩
+      have hcore : removeCore v c i ks = (c, Out.errRange) := by
+        rw [removeCore_eq, if_pos hb.2, if_neg (by simp [hb.1])]
+      have := hspec' hs.1 (by rw [hcore]; simp)
+      rw [hcore] at this; exact this
+    · rw [if_neg hb]
+      by_cases hrb : rangeBad c i = true
+      · -- only reachable when the range check comes later (original source)
+        have hrf : v.rangeFirst = false := by
+          cases h : v.rangeFirst
+          · rfl
+          · exact absurd (by simp [h, hrb]) hb
+        cases hds : dcritShift v c i with
+        | none =>
+          refine ⟨hinv, fun hnf => ?_, fun hs => ?_⟩
+          · rcases hnf.2 with h | h | h | h
+            · exact absurd h hW
+            · rw [hrf] at h; simp at h
+            · rw [dcritShift_not_merc v c i h] at hds; simp at hds
+            · rw [hrb] at h; simp at h
+          · rcases hs.2.1.2 with h | h | h | h
+            · exact absurd h hW
+            · rw [hrf] at h; simp at h
+            · rw [dcritShift_not_merc v c i h] at hds; simp at hds
+            · rw [hrb] at h; simp at h
+        | some c1 =>
+          simp only []
+          have hsh := dcritShift_shape v c c1 i hds
+          obtain ⟨q1, q2, q3⟩ := removeCore_spec v c1 ((by rw [hsh]; exact (inv_dcrit _ _).mpr hinv)) i ks
+          refine ⟨q1, fun _ => q2, fun hs => ?_⟩
+          rcases hs.2.1.2 with h | h | h | h
+          · exact absurd h hW
+          · rw [hrf] at h; simp at h
+          · rw [dcritShift_not_merc v c i h] at hds; simp at hds; subst hds
+            have hne : (removeCore v c i ks).2 ≠ Out.removed := fun hr => removeCore_removed_valid v c i ks hr hrb
+            exact hspec' hs.1 hne
+          · rw [hrb] at h; simp at h
+      · have hr : 0 ≤ i ∧ i < (c.N : Int) := by
+          have : ¬ (i < 0 ∨ i ≥ (c.N : Int)) := fun h => hrb ((rangeBad_iff c i).mpr h)
+          omega
+        cases hds : dcritShift v c i with
+        | none =>
+          refine ⟨hinv, fun hnf => ?_, fun hs => ?_⟩
+          · obtain ⟨d, e1, _⟩ := dcritShift_spec v c i hr.1 hr.2 hnf.1
+            rw [e1] at hds; simp at hds
+          · obtain ⟨d, e1, _⟩ := dcritShift_spec v c i hr.1 hr.2 hs.2.1.1
+            rw [e1] at hds; simp at hds
+        | some c1 =>
+          simp only []
+          have hsh := dcritShift_shape v c c1 i hds
+          rw [hsh, removeCore_dcrit]
+          refine ⟨(inv_dcrit _ _).mpr k1, fun _ => k2, fun hs => ?_⟩
+          obtain ⟨d, e1, e2⟩ := dcritShift_spec v c i hr.1 hr.2 hs.2.1.1
+          have hd : c1.dcrit = d := by rw [e1] at hds; simp at hds; rw [← hds]
+          rw [hd]
+          by_cases hrem : (removeCore v c i ks).2 = Out.removed
+          · exact hspec hs.1 d e2 hrem
+          · -- nothing was removed: `dcrit` must be what it was
+            have hdd : d = c.dcrit := by
+              rcases hs.2.2 with h | h | h | h | h | h
+              · exact absurd h hW
+              · rw [e2, h]; simp
+              · rw [e2]; cases c.mercurius <;> simp [dcritErased, h]
+              · rw [e2]
+                cases c.mercurius
+                · simp
+                · simp only [if_true]; rw [h]; exact dcritErased_one _ _ hr.1 (by omega)
+              · by_cases hN1 : c.N = 1
+                · rw [e2]
+                  cases c.mercurius
+                  · simp
+                  · simp only [if_true]; rw [hN1]; exact dcritErased_one _ _ hr.1 (by omega)
+                · exfalso
+                  have e := k3 hs.1
+                  have := Spec.removeCore_removed (abs c) i ks hr.1 (by rw [hlen]; exact hr.2)
+                    (by rw [hlen]; exact hN1) h.1 h.2
+                  rw [← e] at this
+                  exact hrem this
+              · exact absurd h hrb
+            rw [hdd, ← hkeep]
+            exact hspec' hs.1 hrem
+
+
+
+/-! ### unsorted removal as a permutation -/
+
+theorem snoc_of_getLast {α} (l : List α) (a : α) (h : l.getLast? = some a) : l = l.dropLast ++ [a] := by
+  induction l with
+  | nil => simp at h
+  | cons x t ih =>
+    cases t with
+    | nil => simp at h; simp [h]
+    | cons y t' =>
+      have : (y :: t').getLast? = some a := by simpa [List.getLast?_cons_cons] using h
+      have := ih this
+      simp only [List.dropLast_cons_cons, List.cons_append]
+      rw [← this]
+
+/-- moving the last element into the hole gives the same multiset as erasing the element -/
+theorem set_dropLast_perm {α} (l : List α) (i : Nat) (a : α) (hi : i < l.length)
+    (h : l.getLast? = some a) : ((l.set i a).dropLast).Perm (l.eraseIdx i) := by
+  have hl := snoc_of_getLast l a h
+  generalize l.dropLast = ini at hl
+  subst hl
+  simp only [List.length_append, List.length_singleton] at hi
+  by_cases hlast : i < ini.length
+  · rw [List.set_append, if_pos hlast, List.dropLast_concat, List.eraseIdx_append_of_lt_length hlast]
+    rw [List.set_eq_take_append_cons_drop, if_pos hlast, List.eraseIdx_eq_take_drop_succ]
+    exact List.perm_middle.trans (List.perm_append_singleton a _).symm
+  · have : i = ini.length := by omega
+    subst this
+    rw [List.set_append, if_neg (by omega), List.eraseIdx_append_of_length_le (by omega)]
+    simp
+
+theorem cons_eraseIdx_perm {α} (l : List α) (i : Nat) (h : i < l.length) : (l[i] :: l.eraseIdx i).Perm l := by
+  induction l generalizing i with
+  | nil => simp at h
+  | cons y t ih =>
+    cases i with
+    | zero => simp
+    | succ j =>
+      have hj : j < t.length := by simpa using h
+      simp only [List.getElem_cons_succ, List.eraseIdx_cons_succ]
+      exact (List.Perm.swap y (t[j]'hj) _).trans ((ih j hj).cons y)
+
+theorem filter_eraseIdx_of_not {α} (f : α → Bool) : ∀ (l : List α) (i : Nat) (x : α),
+    l[i]? = some x → f x = false → (l.eraseIdx i).filter f = l.filter f := by
+  intro l
+  induction l with
+  | nil => intro i x h; simp at h
+  | cons y t ih =>
+    intro i x h hf
+    cases i with
+    | zero => simp at h; subst h; simp [List.filter_cons, hf]
+    | succ j =>
+      simp at h
+      simp only [List.eraseIdx_cons_succ, List.filter_cons]
+      rw [ih j x h hf]
+
+/-! ### tree mode, second phase: the tree update evicts the flagged particles -/
+
+def unfl (p : P) : Bool := !p.flagged
+
+def live (c : State) : List P := (c.mem.take c.N).filter unfl
+
+theorem evict_spec (c : State) (hinv : Inv c) (q : Nat) (hf : isFlaggedAt c q = true) :
+    ∃ c', evict c q = some c' ∧ Inv c' ∧ c' = { c with mem := c'.mem, N := c'.N } ∧ c'.N + 1 = c.N ∧
+      (live c').Perm (live c) := by
+  have hle := hinv.le
+  simp only [isFlaggedAt, Bool.and_eq_true, decide_eq_true_eq] at hf
+  obtain ⟨hq, hfl⟩ := hf
+  obtain ⟨n, hn⟩ : ∃ n, c.N = n + 1 := ⟨c.N - 1, by omega⟩
+  have hn' : c.N - 1 = n := by omega
+  have hnl : n < c.mem.length := by omega
+  have hql : q < c.mem.length := by omega
+  have hqv : c.mem[q]? = some c.mem[q] := List.getElem?_eq_getElem hql
+  rw [hqv] at hfl
+  simp only at hfl
+  unfold evict
+  rw [if_neg (by omega)]
+  simp only [hn', List.getElem?_eq_getElem hnl, writeAt, if_pos hql]
+  refine ⟨_, rfl, ?_, rfl, by simp; omega, ?_⟩
+  · simp [Inv]; have := hinv.1; have := hinv.2; omega
+  · simp only [live]
+    have ht := take_unsorted_remove c.mem n q c.mem[n] (by omega) (by omega) (List.getElem?_eq_getElem hnl)
+    rw [ht, hn]
+    have hlast : (c.mem.take (n + 1)).getLast? = some c.mem[n] := by
+      rw [getLast_take c.mem n (by omega)]; exact List.getElem?_eq_getElem hnl
+    have hp := set_dropLast_perm (c.mem.take (n + 1)) q c.mem[n] (by simp; omega) hlast
+    have hq' : (c.mem.take (n + 1))[q]? = some c.mem[q] := by
+      rw [List.getElem?_take, if_pos (by omega)]; exact hqv
+    have he := filter_eraseIdx_of_not unfl (c.mem.take (n + 1)) q c.mem[q] hq' (by simp [unfl, hfl])
+    rw [← he]
+    exact hp.filter unfl
+
+theorem evictAll_spec : ∀ (visit : List Nat) (c : State), Inv c →
+    evictAll c visit ≠ some none ∧
+    ∀ c', evictAll c visit = some (some c') →
+      Inv c' ∧ c' = { c with mem := c'.mem, N := c'.N } ∧ (live c').Perm (live c) := by
+  intro visit
+  induction visit with
+  | nil =>
+    intro c hinv
+    refine ⟨by simp [evictAll], fun c' h => ?_⟩
+    simp [evictAll] at h; subst h
+    exact ⟨hinv, rfl, List.Perm.refl _⟩
+  | cons q rest ih =>
+    intro c hinv
+    unfold evictAll
+    by_cases hf : isFlaggedAt c q = true
+    · rw [if_pos hf]
+      obtain ⟨c1, e1, i1, s1, _, p1⟩ := evict_spec c hinv q hf
+      rw [e1]
+      simp only []
+      obtain ⟨a, b⟩ := ih c1 i1
+      refine ⟨a, fun c' h => ?_⟩
+      obtain ⟨i2, s2, p2⟩ := b c' h
+      refine ⟨i2, ?_, p2.trans p1⟩
+      rw [s2, s1]
+    · rw [if_neg hf]
+      exact ⟨by simp, fun c' h => by simp at h⟩
+
+theorem filter_unfl_of_none (l : List P) (h : l.any (·.flagged) = false) : l.filter unfl = l := by
+  rw [List.filter_eq_self]
+  intro a ha
+  rw [List.any_eq_false] at h
+  have := h a ha
+  simp [unfl, this]
+
+/-- the `N_active` clause of the tree update (finding F4h) -/
+def NoShapeTreeUpdate (v : Variant) (c : State) : Prop :=
+  v.evictClamp = true ∨ c.nActive ≤ ((live c).length : Int)
+
+theorem treeUpdate_spec (v : Variant) (c : State) (hinv : Inv c) (visit : List Nat) :
+    Inv (treeUpdate v c visit).1 ∧ (treeUpdate v c visit).2 ≠ Out.fault ∧
+    (NoShapeTreeUpdate v c →
+      SpecStep (abs c) (.treeUpdate visit) (treeUpdate v c visit).2 (abs (treeUpdate v c visit).1)) := by
+  obtain ⟨nf, hall⟩ := evictAll_spec visit c hinv
+  unfold treeUpdate
+  cases he : evictAll c visit with
+  | none => exact ⟨hinv, by simp, fun _ => Or.inl ⟨rfl, rfl⟩⟩
+  | some r =>
+    cases r with
+    | none => exact absurd he nf
+    | some c' =>
+      obtain ⟨i2, s2, p2⟩ := hall c' he
+      simp only []
+      by_cases hany : (c'.mem.take c'.N).any (·.flagged) = true
+      · rw [if_pos hany]; exact ⟨hinv, by simp, fun _ => Or.inl ⟨rfl, rfl⟩⟩
+      · rw [if_neg hany]
+        simp only [Bool.not_eq_true] at hany
+        have hps : c'.mem.take c'.N = live c' := (filter_unfl_of_none _ hany).symm
+        have hlen' : (c'.mem.take c'.N).length = c'.N := by
+          have := i2.le; simp [List.length_take]; omega
+        refine ⟨by simp [Inv]; exact i2, by simp, fun hs => Or.inr ⟨rfl, ?_, ?_⟩⟩
+        · show (c'.mem.take c'.N).Perm ((c.mem.take c.N).filter (fun p => !p.flagged))
+          rw [hps]; exact p2
+        · have hact : (if v.evictClamp = true then clampActive c'.nActive c'.N else c'.nActive)
+              = clampActive c.nActive c'.N := by
+            have hna : c'.nActive = c.nActive := by rw [s2]
+            rw [hna]
+            rcases hs with h | h
+            · simp [h]
+            · have hl : (live c).length = c'.N := by
+                rw [← p2.length_eq, ← hps, hlen']
+              rw [hl] at h
+              cases v.evictClamp <;> simp [clampActive] <;> omega
+          simp only [abs, hact, hlen']
+          rw [s2]
+
+
+
+/-! ### the wrapper only adds a `dcrit` update to the core removal -/
+
+theorem remove_core_shape (v : Variant) (c : State) (i : Int) (ks : Bool) (hnf : NoFaultRemove v c i) :
+    ∃ d, remove v c i ks = ({ (removeCore v c i ks).1 with dcrit := d }, (removeCore v c i ks).2) := by
+  have hkeep := removeCore_keeps_dcrit v c i ks
+  have hself : ∀ x : State, ({ x with dcrit := x.dcrit } : State) = x := fun _ => rfl
+  unfold remove
+  by_cases hW : v.dcritWithParticles = true
+  · rw [if_pos hW]
+    simp only []
+    by_cases hrem : (removeCore v c i ks).2 = Out.removed
+    · rw [if_pos hrem]
+      have hval := removeCore_removed_valid v c i ks hrem
+      have hr : 0 ≤ i ∧ i < (c.N : Int) := by
+        have : ¬ (i < 0 ∨ i ≥ (c.N : Int)) := fun h => hval ((rangeBad_iff c i).mpr h)
+        omega
+      obtain ⟨d, e1, _⟩ := dcritShift_spec v c i hr.1 hr.2 hnf.1
+      rw [e1]
+      exact ⟨d, rfl⟩
+    · rw [if_neg hrem]
+      exact ⟨(removeCore v c i ks).1.dcrit, rfl⟩
+  · rw [if_neg hW]
+    by_cases hb : (v.rangeFirst && rangeBad c i) = true
+    · rw [if_pos hb]
+      simp only [Bool.and_eq_true] at hb
+      have hcore : removeCore v c i ks = (c, Out.errRange) := by
+        rw [removeCore_eq, if_pos hb.2, if_neg (by simp [hb.1])]
+      rw [hcore]
+      exact ⟨c.dcrit, rfl⟩
+    · rw [if_neg hb]
+      have hsome : ∃ d, dcritShift v c i = some { c with dcrit := d } := by
+        by_cases hrb : rangeBad c i = true
+        · have hrf : v.rangeFirst = false := by
+            cases h : v.rangeFirst
+            · rfl
+            · exact absurd (by simp [h, hrb]) hb
+          rcases hnf.2 with h | h | h | h
+          · exact absurd h hW
+          · rw [hrf] at h; simp at h
+          · exact ⟨c.dcrit, by rw [dcritShift_not_merc v c i h]⟩
+          · rw [hrb] at h; simp at h
+        · have hr : 0 ≤ i ∧ i < (c.N : Int) := by
+            have : ¬ (i < 0 ∨ i ≥ (c.N : Int)) := fun h => hrb ((rangeBad_iff c i).mpr h)
+            omega
+          obtain ⟨d, e1, _⟩ := dcritShift_spec v c i hr.1 hr.2 hnf.1
+          exact ⟨d, e1⟩
+      obtain ⟨d, e1⟩ := hsome
+      rw [e1]
+      simp only []
+      rw [removeCore_dcrit]
+      exact ⟨d, rfl⟩
+
+theorem filter_modify_flag {α} (g : α → Bool) (f : α → α) (hg : ∀ x, g (f x) = false) :
+    ∀ (l : List α) (i : Nat), i < l.length → (l.modify i f).filter g = (l.eraseIdx i).filter g := by
+  intro l
+  induction l with
+  | nil => intro i h; simp at h
+  | cons y t ih =>
+    intro i h
+    cases i with
+    | zero => simp [List.filter_cons, hg]
+    | succ j =>
+      simp only [List.modify_succ_cons, List.eraseIdx_cons_succ, List.filter_cons]
+      rw [ih j (by simpa using h)]
+
+/-! ### add, with the MERCURIUS recalculation requests -/
+
+theorem addCore_cfg (c : State) (p : P) (g : Geo) : (addCore c p g).1.mercurius = c.mercurius := by
+  unfold addCore writeAt
+  repeat' split
+  all_goals first | rfl
+
+theorem inv_addTail (c : State) : Inv (addTail c) ↔ Inv c := by
+  unfold addTail; split <;> exact Iff.rfl
 
 theorem add_spec (c : State) (hinv : Inv c) (p : P) (g : Geo) :
     Inv (add c p g).1 ∧ (add c p g).2 ≠ .fault ∧
     (c.staleLeaf = false → (abs (add c p g).1, (add c p g).2) = (abs c).add p g) := by
-  obtain ⟨k, hg, hlt⟩ := grow_spec c.mem c.nAlloc c.N hinv.1
-  have hle := hinv.le
-  have hwl : c.N < (c.mem ++ List.replicate k P.zero).length := by
-    simp [List.length_append, List.length_replicate]; have := hinv.1; omega
-  have hlen2 : ((c.mem ++ List.replicate k P.zero).set c.N p).length = c.nAlloc + k := by
-    simp [List.length_append, List.length_replicate]; exact hinv.1
-  have t1 := take_succ_set_append c.mem (List.replicate k P.zero) c.N p hle hwl
-  have t0 : ((c.mem ++ List.replicate k P.zero).set c.N p).take c.N = c.mem.take c.N := by
-    rw [take_set_same, take_append_le _ _ _ hle]
-  unfold add Spec.add
-  by_cases hg1 : g = .outsideBoundary
-  · simp only [if_pos hg1]; exact ⟨hinv, by simp, fun _ => by simp [abs]⟩
-  · simp only [if_neg hg1, hg, writeAt, if_pos hwl]
-    cases htc : c.treeCfg <;> cases hbc : c.boxCfg <;> by_cases hg2 : g = .outsideTreeBox <;>
-      cases hst : c.staleLeaf <;>
-      simp [abs, Inv, htc, hbc, hg2, hlen2, t1, t0, hst] <;> omega
+  obtain ⟨a, b, d⟩ := addCore_spec c hinv p g
+  have hm := addCore_cfg c p g
+  unfold add
+  simp only []
+  by_cases hc : (addCore c p g).2 = Out.ok ∨ (addCore c p g).2 = Out.errSameCoords
+  · rw [if_pos hc]
+    refine ⟨(inv_addTail _).mpr a, b, fun hs => ?_⟩
+    have e := d hs
+    have e2 : (addCore c p g).2 = ((abs c).addCore p g).2 := congrArg Prod.snd e
+    have e1 : abs (addCore c p g).1 = ((abs c).addCore p g).1 := congrArg Prod.fst e
+    unfold Spec.add
+    simp only []
+    rw [← e2, if_pos hc, ← e1]
+    have hma : (abs c).mercurius = c.mercurius := rfl
+    rw [hma]
+    unfold addTail
+    by_cases hmm : c.mercurius = true
+    · rw [if_pos (hm.trans hmm), if_pos hmm]; rfl
+    · rw [if_neg (by rw [hm]; exact hmm), if_neg hmm]
+  · rw [if_neg hc]
+    refine ⟨a, b, fun hs => ?_⟩
+    have e := d hs
+    have e2 : (addCore c p g).2 = ((abs c).addCore p g).2 := congrArg Prod.snd e
+    unfold Spec.add
+    simp only []
+    rw [← e2, if_neg hc]
+    exact e
 
-/-! ### removal -/
-
-theorem removeSorted_spec (v : Variant) (c : State) (hinv : Inv c) (idx : Int)
-    (h0 : 0 ≤ idx) (h1 : idx < c.N) :
-    Inv (removeSorted v c idx).1 ∧ (removeSorted v c idx).2 ≠ .fault ∧
-    ((v.treeFirst = true ∨ c.treeRoot = false) →
-      (abs (removeSorted v c idx).1, (removeSorted v c idx).2) =
-        (if c.treeRoot then (abs c, Out.errTreeSorted) else
-          ({ abs c with ps := (abs c).ps.eraseIdx idx.toNat,
-                        active := if idx < c.nActive then c.nActive - 1 else c.nActive }, Out.removed))) := by
-  have hle := hinv.le
-  unfold removeSorted
-  by_cases hT : (v.treeFirst && c.treeRoot) = true
-  · simp only [hT, if_true]
-    refine ⟨hinv, by simp, fun _ => ?_⟩
-    simp at hT; simp [hT.2]
-  · simp only [hT]
-    obtain ⟨n, hn⟩ : ∃ n, c.N = n + 1 := ⟨c.N - 1, by omega⟩
-    have hidx : idx.toNat ≤ n := by omega
-    obtain ⟨m', e1, e2, e3⟩ := shiftLoop_spec (n - idx.toNat) c.mem idx.toNat (by omega)
-    have hn' : c.N - 1 = n := by omega
-    simp only [hn', e1]
-    have ht := take_sorted_remove c.mem m' n idx.toNat (by omega) hidx e2 e3
-    refine ⟨?_, ?_, ?_⟩
-    · cases c.treeRoot <;> simp [Inv, e2] <;> (have := hinv.1; have := hinv.2; omega)
-    · cases c.treeRoot <;> simp
-    · intro hv
-      have htr : c.treeRoot = false := by
-        rcases hv with hv | hv
-        · simp [hv] at hT; exact hT
-        · exact hv
-      simp [htr, abs, ht, hn]
-
-theorem removeUnsorted_spec (v : Variant) (c : State) (hinv : Inv c) (idx : Int)
-    (h0 : 0 ≤ idx) (h1 : idx < c.N) :
-    Inv (removeUnsorted v c idx).1 ∧ (removeUnsorted v c idx).2 ≠ .fault ∧
-    ((v.unsortedClamp = true ∨ c.treeRoot = true ∨ c.nActive < c.N) →
-      ∃ last, (abs c).ps.getLast? = some last ∧
-      (abs (removeUnsorted v c idx).1, (removeUnsorted v c idx).2) =
-        (if c.treeRoot then
-          ({ abs c with ps := (abs c).ps.modify idx.toNat (fun p => { p with flagged := true }) }, Out.removed)
-         else
-          ({ abs c with ps := ((abs c).ps.set idx.toNat last).dropLast,
-                        active := clampActive c.nActive ((abs c).ps.length - 1) }, Out.removed))) := by
-  have hle := hinv.le
-  obtain ⟨n, hn⟩ : ∃ n, c.N = n + 1 := ⟨c.N - 1, by omega⟩
-  have hn' : c.N - 1 = n := by omega
-  have hidx : idx.toNat ≤ n := by omega
-  have hnl : n < c.mem.length := by omega
-  have hil : idx.toNat < c.mem.length := by omega
-  have hlast : (abs c).ps.getLast? = some c.mem[n] := by
-    simp only [abs, hn]; rw [getLast_take c.mem n (by omega)]; exact List.getElem?_eq_getElem hnl
-  have hlen : (abs c).ps.length = n + 1 := by simp [abs, List.length_take]; omega
-  unfold removeUnsorted
-  cases htr : c.treeRoot
-  · simp only [hn', List.getElem?_eq_getElem hnl, writeAt, if_pos hil, Bool.false_eq_true, if_false]
-    refine ⟨?_, by simp, fun hv => ⟨c.mem[n], hlast, ?_⟩⟩
-    · simp [Inv]; have := hinv.1; have := hinv.2; omega
-    · have ht := take_unsorted_remove c.mem n idx.toNat c.mem[n] (by omega) hidx (List.getElem?_eq_getElem hnl)
-      have hcl : (if v.unsortedClamp = true then clampActive c.nActive n else c.nActive) = clampActive c.nActive n := by
-        rcases hv with hv | hv | hv
-        · simp [hv]
-        · simp [htr] at hv
-        · cases v.unsortedClamp <;> simp [clampActive] <;> omega
-      have hm : min (n + 1) c.mem.length - 1 = n := by omega
-      simp [abs, ht, hn, hcl, htr, List.length_take, hm]
-  · simp only [List.getElem?_eq_getElem hil, if_true]
-    refine ⟨?_, by simp, fun hv => ⟨c.mem[n], hlast, ?_⟩⟩
-    · simp [Inv]; exact hinv
-    · have ht := take_flag c.mem c.N idx.toNat c.mem[idx.toNat] (fun p => { p with flagged := true }) hle (by omega)
-        (List.getElem?_eq_getElem hil)
-      simp [abs, ht, htr]
-
-/-- the call shapes in which the source variant `v` departs from the documented behaviour
-    (F4a, F4b, F4c, F4d, F18b) are excluded -/
-def NoShapeRemove (v : Variant) (c : State) (index : Int) (ks : Bool) : Prop :=
-  (v.rangeFirst = true ∨ c.N ≠ 1 ∨ rangeBad c index = false) ∧
-  (v.treeFirst = true ∨ c.treeRoot = false ∨ (ks || c.forceSorted) = false ∨ c.N = 1 ∨ c.nVar ≠ 0 ∨
-    rangeBad c index = true) ∧
-  (v.lastClamp = true ∨ c.N ≠ 1 ∨ c.nActive ≤ 0) ∧
-  (v.unsortedClamp = true ∨ (ks || c.forceSorted) = true ∨ c.treeRoot = true ∨ c.nActive < c.N ∨ c.N = 1 ∨
-    c.nVar ≠ 0 ∨ rangeBad c index = true) ∧
-  (v.resetTree = true ∨ c.N ≠ 1 ∨ c.treeRoot = false)
-
-theorem NoShapeRemove.repaired (c : State) (index : Int) (ks : Bool) :
-    NoShapeRemove Variant.repaired c index ks := by
-  simp [NoShapeRemove, Variant.repaired]
-
-theorem remove_eq (v : Variant) (c : State) (idx : Int) (ks : Bool) :
-    remove v c idx ks =
-      if rangeBad c idx = true then
-        (if v.rangeFirst = false ∧ c.N = 1 then removeShortcut v c else (c, Out.errRange))
-      else if c.N = 1 then removeShortcut v c else removeRest v c idx (ks || c.forceSorted) := by
-  unfold remove
-  cases v.rangeFirst <;> by_cases h1 : c.N = 1 <;> cases rangeBad c idx <;> simp [h1]
-
-theorem rangeBad_iff (c : State) (idx : Int) : rangeBad c idx = true ↔ (idx < 0 ∨ idx ≥ (c.N : Int)) := by
-  simp [rangeBad]; omega
-
-theorem removeShortcut_inv (v : Variant) (c : State) (hinv : Inv c) :
-    Inv (removeShortcut v c).1 ∧ (removeShortcut v c).2 ≠ .fault := by
-  simp [removeShortcut, Inv]; exact hinv.1
-
-theorem remove_spec (v : Variant) (c : State) (hinv : Inv c) (idx : Int) (ks : Bool) :
-    Inv (remove v c idx ks).1 ∧ (remove v c idx ks).2 ≠ .fault ∧
-    (NoShapeRemove v c idx ks → (abs (remove v c idx ks).1, (remove v c idx ks).2) = (abs c).remove idx ks) := by
+theorem integratorStep_spec (c : State) (hinv : Inv c) (vals : List Nat) :
+    Inv (integratorStep c vals).1 ∧ (integratorStep c vals).2 ≠ .fault ∧
+    (abs (integratorStep c vals).1, (integratorStep c vals).2) = (abs c).integratorStep vals := by
   have hlen := abs_len hinv
-  rw [remove_eq]
-  by_cases hrb : rangeBad c idx = true
-  · have hr := (rangeBad_iff c idx).mp hrb
-    have hspec : (abs c).remove idx ks = (abs c, Out.errRange) := by
-      unfold Spec.remove; rw [hlen, if_pos (by omega)]
-    rw [if_pos hrb]
-    by_cases hsc : v.rangeFirst = false ∧ c.N = 1
-    · rw [if_pos hsc]
-      refine ⟨(removeShortcut_inv v c hinv).1, (removeShortcut_inv v c hinv).2, fun hs => ?_⟩
-      rcases hs.1 with h | h | h
-      · rw [hsc.1] at h; simp at h
-      · exact absurd hsc.2 h
-      · rw [hrb] at h; simp at h
-    · rw [if_neg hsc]
-      exact ⟨hinv, by simp, fun _ => hspec.symm⟩
-  · have hr : 0 ≤ idx ∧ idx < c.N := by
-      have : ¬ (idx < 0 ∨ idx ≥ (c.N : Int)) := fun h => hrb ((rangeBad_iff c idx).mpr h)
-      omega
-    rw [if_neg hrb]
-    by_cases hN1 : c.N = 1
-    · rw [if_pos hN1]
-      refine ⟨(removeShortcut_inv v c hinv).1, (removeShortcut_inv v c hinv).2, fun hs => ?_⟩
-      obtain ⟨_, _, h3, _, h5⟩ := hs
-      have hna : (if v.lastClamp = true then clampActive c.nActive 0 else c.nActive) = clampActive c.nActive 0 := by
-        rcases h3 with h | h | h
-        · simp [h]
-        · exact absurd hN1 h
-        · cases v.lastClamp <;> simp [clampActive] <;> omega
-      have htr : (if v.resetTree = true then false else c.treeRoot) = false := by
-        rcases h5 with h | h | h
-        · simp [h]
-        · exact absurd hN1 h
-        · simp [h]
-      unfold Spec.remove; rw [hlen]
-      rw [if_neg (by omega), if_pos hN1]
-      simp [removeShortcut, abs, hna, htr]
-    · rw [if_neg hN1]
-      unfold removeRest
-      have hspec0 : (abs c).remove idx ks = (abs c).removeMany idx (ks || c.forceSorted) := by
-        unfold Spec.remove; rw [hlen]
-        rw [if_neg (by omega), if_neg hN1]
-        rfl
-      have hnv' : (abs c).nVar = c.nVar := rfl
-      have htr' : (abs c).treeRoot = c.treeRoot := rfl
-      have hac' : (abs c).active = c.nActive := rfl
-      by_cases hnv : c.nVar ≠ 0
-      · rw [if_pos hnv]
-        exact ⟨hinv, by simp, fun _ => by rw [hspec0]; unfold Spec.removeMany; rw [if_pos (show (abs c).nVar ≠ 0 from hnv)]⟩
-      · rw [if_neg hnv]
-        by_cases hks : (ks || c.forceSorted) = true
-        · rw [if_pos hks]
-          obtain ⟨a1, a2, a3⟩ := removeSorted_spec v c hinv idx hr.1 hr.2
-          refine ⟨a1, a2, fun hs => ?_⟩
-          have : v.treeFirst = true ∨ c.treeRoot = false := by
-            rcases hs.2.1 with h | h | h | h | h | h
-            · exact Or.inl h
-            · exact Or.inr h
-            · rw [hks] at h; simp at h
-            · exact absurd h hN1
-            · exact absurd h hnv
-            · exact absurd h hrb
-          rw [a3 this, hspec0]; unfold Spec.removeMany; rw [if_neg (show ¬ (abs c).nVar ≠ 0 from hnv), if_pos hks]
-          rfl
-        · rw [if_neg hks]
-          obtain ⟨a1, a2, a3⟩ := removeUnsorted_spec v c hinv idx hr.1 hr.2
-          refine ⟨a1, a2, fun hs => ?_⟩
-          have : v.unsortedClamp = true ∨ c.treeRoot = true ∨ c.nActive < c.N := by
-            rcases hs.2.2.2.1 with h | h | h | h | h | h | h
-            · exact Or.inl h
-            · exact absurd h hks
-            · exact Or.inr (Or.inl h)
-            · exact Or.inr (Or.inr h)
-            · exact absurd h hN1
-            · exact absurd h hnv
-            · exact absurd h hrb
-          obtain ⟨last, hl, e⟩ := a3 this
-          rw [e, hspec0]; unfold Spec.removeMany; rw [if_neg (show ¬ (abs c).nVar ≠ 0 from hnv), if_neg hks, hl]
-          rfl
-
-
+  unfold integratorStep Spec.integratorStep
+  rw [hlen]
+  have hma : (abs c).mercurius = c.mercurius := rfl
+  rw [hma]
+  split
+  · exact ⟨hinv, by simp, rfl⟩
+  · exact ⟨hinv, by simp, rfl⟩
 /-! ### the remaining operations -/
 
 theorem abs_lookup (c : State) (t : List Entry) : abs { c with lookup := t } = abs c := rfl
@@ -292,6 +545,7 @@ theorem setActive_spec (c : State) (hinv : Inv c) (k : Int) :
   · rw [if_pos hk, if_pos hk]; exact ⟨hinv, by simp, rfl⟩
   · rw [if_neg hk, if_neg hk]; exact ⟨hinv, by simp, rfl⟩
 
+
 /-! ### one step, and whole histories -/
 
 /-- the operation is not one of the call shapes in which variant `v` departs from the
@@ -301,11 +555,22 @@ def NoShape (v : Variant) (c : State) : Op → Prop
   | .remove i ks => NoShapeRemove v c i ks
   | .removeByHash _ ks => ∀ i : Nat, i < c.N → NoShapeRemove v c (i : Int) ks
   | .removeAll => v.resetTree = true ∨ c.treeRoot = false
+  | .treeUpdate _ => NoShapeTreeUpdate v c
   | _ => True
+
+/-- the operation cannot leave the allocated storage in variant `v` (finding F4g is the only way to) -/
+def NoFault (v : Variant) (c : State) : Op → Prop
+  | .remove i _ => NoFaultRemove v c i
+  | .removeByHash _ _ => ∀ i : Nat, i < c.N → NoFaultRemove v c (i : Int)
+  | _ => True
+
+theorem noFaultRemove_lookup (v : Variant) (c : State) (t : List Entry) (i : Int) :
+    NoFaultRemove v { c with lookup := t } i = NoFaultRemove v c i := rfl
 
 theorem removeByHash_spec (v : Variant) (srt : Sorter) (hv : srt.Valid) (c : State) (hinv : Inv c)
     (h : Nat) (ks : Bool) :
-    Inv (removeByHash v srt c h ks).1 ∧ (removeByHash v srt c h ks).2 ≠ .fault ∧
+    Inv (removeByHash v srt c h ks).1 ∧
+    ((∀ i : Nat, i < c.N → NoFaultRemove v c (i : Int)) → (removeByHash v srt c h ks).2 ≠ .fault) ∧
     ((∀ i : Nat, i < c.N → NoShapeRemove v c (i : Int) ks) →
       SpecStep (abs c) (.removeByHash h ks) (removeByHash v srt c h ks).2 (abs (removeByHash v srt c h ks).1)) := by
   obtain ⟨h1, h2⟩ := particleByHash_spec srt hv c hinv.le h
@@ -317,67 +582,81 @@ theorem removeByHash_spec (v : Variant) (srt : Sorter) (hv : srt.Valid) (c : Sta
   cases o <;> simp only [LookupRes] at h2 <;> try exact h2.elim
   · rename_i i
     obtain ⟨r1, r2, r3⟩ := remove_spec v c' b1 (i : Int) ks
-    refine ⟨r1, r2, fun hs => ?_⟩
-    have hns : NoShapeRemove v c' (i : Int) ks := by
+    refine ⟨r1, fun hs => ?_, fun hs => ?_⟩
+    · apply r2
       rcases h1 with e | ⟨t, e⟩
       · rw [e]; exact hs i h2.1
-      · rw [e, noShapeRemove_lookup]; exact hs i h2.1
-    have := r3 hns
-    rw [b3] at this
-    obtain ⟨p, hp, hh⟩ := b4
-    exact Or.inr ⟨i, p, hp, hh, this⟩
-  · refine ⟨b1, by simp, fun _ => Or.inl ⟨b4, rfl, b3⟩⟩
+      · rw [e, noFaultRemove_lookup]; exact hs i h2.1
+    · have hns : NoShapeRemove v c' (i : Int) ks := by
+        rcases h1 with e | ⟨t, e⟩
+        · rw [e]; exact hs i h2.1
+        · rw [e, noShapeRemove_lookup]; exact hs i h2.1
+      have := r3 hns
+      rw [b3] at this
+      obtain ⟨p, hp, hh⟩ := b4
+      exact Or.inr ⟨i, p, hp, hh, this⟩
+  · refine ⟨b1, fun _ => by simp, fun _ => Or.inl ⟨b4, rfl, b3⟩⟩
 
 theorem step_spec (v : Variant) (srt : Sorter) (hv : srt.Valid) (c : State) (hinv : Inv c) (op : Op) :
-    Inv (step v srt c op).1 ∧ (step v srt c op).2 ≠ .fault ∧
+    Inv (step v srt c op).1 ∧ (NoFault v c op → (step v srt c op).2 ≠ .fault) ∧
     (NoShape v c op → SpecStep (abs c) op (step v srt c op).2 (abs (step v srt c op).1)) := by
   cases op with
   | add p g =>
     obtain ⟨a, b, d⟩ := add_spec c hinv p g
-    exact ⟨a, b, fun hs => by simpa only [SpecStep, step] using d hs⟩
+    exact ⟨a, fun _ => b, fun hs => by simpa only [SpecStep, step] using d hs⟩
   | remove i ks =>
     obtain ⟨a, b, d⟩ := remove_spec v c hinv i ks
     exact ⟨a, b, fun hs => by simpa only [SpecStep, step] using d hs⟩
   | removeByHash h ks => exact removeByHash_spec v srt hv c hinv h ks
   | lookup h =>
     obtain ⟨a, b, d, e⟩ := particleByHash_step srt hv c hinv h
-    exact ⟨a, b, fun _ => ⟨d, e⟩⟩
+    exact ⟨a, fun _ => b, fun _ => ⟨d, e⟩⟩
   | setHash i h =>
     obtain ⟨a, b, d⟩ := setHash_spec c hinv i h
-    exact ⟨a, b, fun _ => by simpa only [SpecStep, step] using d⟩
+    exact ⟨a, fun _ => b, fun _ => by simpa only [SpecStep, step] using d⟩
   | setActive k =>
     obtain ⟨a, b, d⟩ := setActive_spec c hinv k
-    exact ⟨a, b, fun _ => by simpa only [SpecStep, step] using d⟩
+    exact ⟨a, fun _ => b, fun _ => by simpa only [SpecStep, step] using d⟩
   | removeAll =>
     obtain ⟨a, b, d⟩ := removeAll_spec v c
-    exact ⟨a, b, fun hs => by simpa only [SpecStep, step] using d hs⟩
+    exact ⟨a, fun _ => b, fun hs => by simpa only [SpecStep, step] using d hs⟩
+  | treeUpdate visit =>
+    obtain ⟨a, b, d⟩ := treeUpdate_spec v c hinv visit
+    exact ⟨a, fun _ => b, d⟩
+  | integratorStep vals =>
+    obtain ⟨a, b, d⟩ := integratorStep_spec c hinv vals
+    exact ⟨a, fun _ => b, fun _ => by simpa only [SpecStep, step] using d⟩
 
 /-- no step of the history is one of the excluded call shapes -/
 def NoShapeRun (v : Variant) : State → List (Sorter × Op) → Prop
   | _, [] => True
   | c, (srt, op) :: rest => NoShape v c op ∧ NoShapeRun v (step v srt c op).1 rest
 
+/-- no step of the history can leave the allocated storage -/
+def NoFaultRun (v : Variant) : State → List (Sorter × Op) → Prop
+  | _, [] => True
+  | c, (srt, op) :: rest => NoFault v c op ∧ NoFaultRun v (step v srt c op).1 rest
+
 theorem run_spec (v : Variant) : ∀ (ops : List (Sorter × Op)) (c : State), Inv c →
     (∀ x ∈ ops, x.1.Valid) →
-    Inv (run v c ops).1 ∧ (∀ o ∈ (run v c ops).2, o ≠ Out.fault) ∧
+    Inv (run v c ops).1 ∧ (NoFaultRun v c ops → ∀ o ∈ (run v c ops).2, o ≠ Out.fault) ∧
     (NoShapeRun v c ops → SpecRun (abs c) (ops.map (·.2)) (run v c ops).2 (abs (run v c ops).1)) := by
   intro ops
   induction ops with
-  | nil => intro c hinv _; exact ⟨hinv, by simp [run], fun _ => SpecRun.nil _⟩
+  | nil => intro c hinv _; exact ⟨hinv, fun _ => by simp [run], fun _ => SpecRun.nil _⟩
   | cons x rest ih =>
     intro c hinv hv
     obtain ⟨srt, op⟩ := x
     obtain ⟨a, b, d⟩ := step_spec v srt (hv (srt, op) (by simp)) c hinv op
     obtain ⟨a', b', d'⟩ := ih (step v srt c op).1 a (fun x hx => hv x (by simp [hx]))
     simp only [run, List.map_cons]
-    refine ⟨a', ?_, fun hs => ?_⟩
+    refine ⟨a', fun hf => ?_, fun hs => ?_⟩
     · intro o ho
       simp at ho
       rcases ho with rfl | ho
-      · exact b
-      · exact b' o ho
+      · exact b hf.1
+      · exact b' hf.2 o ho
     · exact SpecRun.cons (d hs.1) (d' hs.2)
-
 
 /-! ### the stale-leaf mark -/
 
@@ -401,18 +680,77 @@ theorem removeUnsorted_stale (v : Variant) (c : State) (i : Int) :
     | none => rfl
     | some l => simp only []; split <;> rfl
 
-theorem remove_stale (v : Variant) (hr : v.resetTree = true) (c : State) (i : Int) (ks : Bool)
-    (hs : c.staleLeaf = false) : (remove v c i ks).1.staleLeaf = false := by
-  rw [remove_eq]; unfold removeShortcut removeRest
+
+theorem removeCore_stale (v : Variant) (hr : v.resetTree = true) (c : State) (i : Int) (ks : Bool)
+    (hs : c.staleLeaf = false) : (removeCore v c i ks).1.staleLeaf = false := by
+  rw [removeCore_eq]; unfold removeShortcut removeRest
   simp only [hr, if_true]
   repeat' split
   all_goals first | exact hs | rfl | (rw [removeSorted_stale]; exact hs) | (rw [removeUnsorted_stale]; exact hs)
 
+theorem remove_stale (v : Variant) (hr : v.resetTree = true) (c : State) (i : Int) (ks : Bool)
+    (hs : c.staleLeaf = false) : (remove v c i ks).1.staleLeaf = false := by
+  have hcore := removeCore_stale v hr c i ks hs
+  unfold remove
+  split
+  · simp only []
+    split
+    · cases hd : dcritShift v c i with
+      | none => exact hs
+      | some c1 => exact hcore
+    · exact hcore
+  · split
+    · exact hs
+    · cases hd : dcritShift v c i with
+      | none => exact hs
+      | some c1 =>
+        simp only []
+        have hsh := dcritShift_shape v c c1 i hd
+        rw [hsh, removeCore_dcrit]
+        exact hcore
+
 theorem add_stale (c : State) (p : P) (g : Geo)
     (hs : c.staleLeaf = false) : (add c p g).1.staleLeaf = false := by
-  unfold add writeAt
-  repeat' split
-  all_goals first | exact hs | rfl
+  have hcore : (addCore c p g).1.staleLeaf = false := by
+    unfold addCore writeAt
+    repeat' split
+    all_goals first | exact hs | rfl
+  unfold add
+  simp only []
+  split
+  · unfold addTail; split <;> exact hcore
+  · exact hcore
+
+theorem evict_stale (c c1 : State) (q : Nat) (he : evict c q = some c1) : c1.staleLeaf = c.staleLeaf := by
+  unfold evict writeAt at he
+  by_cases h0 : c.N = 0
+  · rw [if_pos h0] at he; simp at he; rw [← he]
+  · rw [if_neg h0] at he
+    cases hm : c.mem[c.N - 1]? with
+    | none => rw [hm] at he; simp at he
+    | some l =>
+      rw [hm] at he; simp only [] at he
+      by_cases hq : q < c.mem.length
+      · rw [if_pos hq] at he; simp at he; rw [← he]
+      · rw [if_neg hq] at he; simp at he
+
+theorem evictAll_stale : ∀ (visit : List Nat) (c c' : State), evictAll c visit = some (some c') →
+    c'.staleLeaf = c.staleLeaf := by
+  intro visit
+  induction visit with
+  | nil => intro c c' h; simp [evictAll] at h; rw [h]
+  | cons q rest ih =>
+    intro c c' h
+    unfold evictAll at h
+    by_cases hf : isFlaggedAt c q = true
+    · rw [if_pos hf] at h
+      cases he : evict c q with
+      | none => rw [he] at h; simp at h
+      | some c1 =>
+        rw [he] at h
+        simp only [] at h
+        rw [ih c1 c' h, evict_stale c c1 q he]
+    · rw [if_neg hf] at h; simp at h
 
 /-! ### the repaired variant has no excluded call shape -/
 
@@ -440,14 +778,43 @@ theorem step_stale (v : Variant) (hr : v.resetTree = true) (srt : Sorter) (hv : 
     · exact hs
   | setActive k => simp only [step, setActive]; split <;> exact hs
   | removeAll => simp [step, removeAll, hr]
+  | treeUpdate visit =>
+    simp only [step, treeUpdate]
+    cases he : evictAll c visit with
+    | none => exact hs
+    | some r =>
+      cases r with
+      | none => exact hs
+      | some c' =>
+        simp only []
+        split
+        · exact hs
+        · simp only []; rw [evictAll_stale visit c c' he]; exact hs
+  | integratorStep vals => simp only [step, integratorStep]; split <;> exact hs
 
 theorem noShape_repaired (c : State) (hs : c.staleLeaf = false) (op : Op) :
     NoShape Variant.repaired c op := by
   cases op <;> simp only [NoShape]
+  · exact Or.inl rfl
   · exact hs
   · exact NoShapeRemove.repaired _ _ _
   · intro i _; exact NoShapeRemove.repaired _ _ _
   · exact Or.inl rfl
+
+theorem noFault_bounded (v : Variant) (hb : v.dcritBounded = true) (hw : v.dcritWithParticles = true ∨ v.rangeFirst = true)
+    (c : State) (op : Op) : NoFault v c op := by
+  have h : ∀ i, NoFaultRemove v c i := fun i => ⟨Or.inl hb, by rcases hw with h | h; exact Or.inl h; exact Or.inr (Or.inl h)⟩
+  cases op <;> simp only [NoFault]
+  · exact h _
+  · intro i _; exact h _
+
+theorem noFaultRun_bounded (v : Variant) (hb : v.dcritBounded = true)
+    (hw : v.dcritWithParticles = true ∨ v.rangeFirst = true) :
+    ∀ (ops : List (Sorter × Op)) (c : State), NoFaultRun v c ops := by
+  intro ops
+  induction ops with
+  | nil => intro c; trivial
+  | cons x rest ih => intro c; obtain ⟨srt, op⟩ := x; exact ⟨noFault_bounded v hb hw c op, ih _⟩
 
 theorem noShapeRun_repaired : ∀ (ops : List (Sorter × Op)) (c : State), Inv c → c.staleLeaf = false →
     (∀ x ∈ ops, x.1.Valid) → NoShapeRun Variant.repaired c ops := by
@@ -473,8 +840,8 @@ theorem clampActive_le (a : Int) (n : Nat) : clampActive a n ≤ n := by
 theorem clampActive_ge (a : Int) (n : Nat) (h : -1 ≤ a) : -1 ≤ clampActive a n := by
   unfold clampActive; split <;> omega
 
-theorem Spec.remove_actOK (s : Spec) (h : s.ActOK) (i : Int) (ks : Bool) : (s.remove i ks).1.ActOK := by
-  unfold Spec.remove
+theorem Spec.removeCore_actOK (s : Spec) (h : s.ActOK) (i : Int) (ks : Bool) : (s.removeCore i ks).1.ActOK := by
+  unfold Spec.removeCore
   by_cases hr : i < 0 ∨ i ≥ (s.ps.length : Int)
   · rw [if_pos hr]; exact h
   · rw [if_neg hr]
@@ -503,36 +870,81 @@ theorem Spec.remove_actOK (s : Spec) (h : s.ActOK) (i : Int) (ks : Bool) : (s.re
               exact ⟨clampActive_ge _ _ h.1, clampActive_le _ _⟩
           · simp only [Spec.ActOK, List.length_modify, if_true]; exact h
 
+theorem Spec.remove_actOK (s : Spec) (h : s.ActOK) (i : Int) (ks : Bool) : (s.remove i ks).1.ActOK := by
+  have hc := Spec.removeCore_actOK s h i ks
+  unfold Spec.remove
+  simp only []
+  split
+  · exact hc
+  · exact hc
+
+theorem Spec.addCore_actOK (s : Spec) (h : s.ActOK) (p : P) (g : Geo) : (s.addCore p g).1.ActOK := by
+  unfold Spec.addCore
+  repeat' split
+  all_goals first | exact h | (simp only [Spec.ActOK, List.length_append, List.length_singleton]; have := h.1; have := h.2; omega)
+
 theorem specStep_actOK (s s' : Spec) (op : Op) (o : Out) (hst : SpecStep s op o s') (h : s.ActOK) :
     s'.ActOK := by
-  cases op <;> simp only [SpecStep] at hst
-  · have e := congrArg Prod.fst hst
+  cases op with
+  | treeUpdate visit =>
+    simp only [SpecStep] at hst
+    rcases hst with ⟨_, e⟩ | ⟨_, hp, e⟩
+    · rw [e]; exact h
+    · rw [e]
+      exact ⟨clampActive_ge _ _ h.1, clampActive_le _ _⟩
+  | integratorStep vals =>
+    simp only [SpecStep] at hst
+    have e := congrArg Prod.fst hst
     simp only at e
-    rw [e]; unfold Spec.add
-    repeat' split
-    all_goals first | exact h | (simp only [Spec.ActOK, List.length_append, List.length_singleton]; have := h.1; have := h.2; omega)
-  · have e := congrArg Prod.fst hst
+    rw [e]; unfold Spec.integratorStep
+    split
+    · exact h
+    · exact h
+  | add p g =>
+    simp only [SpecStep] at hst
+    have e := congrArg Prod.fst hst
+    simp only at e
+    rw [e]
+    have hc := Spec.addCore_actOK s h p g
+    unfold Spec.add
+    simp only []
+    split
+    · split <;> exact hc
+    · exact hc
+  | remove i ks =>
+    simp only [SpecStep] at hst
+    have e := congrArg Prod.fst hst
     simp only at e
     rw [e]; exact Spec.remove_actOK s h _ _
-  · rcases hst with ⟨_, _, e⟩ | ⟨i, p, _, _, e⟩
+  | removeByHash hh ks =>
+    simp only [SpecStep] at hst
+    rcases hst with ⟨_, _, e⟩ | ⟨i, p, _, _, e⟩
     · rw [e]; exact h
     · have e' := congrArg Prod.fst e
       simp only at e'
       rw [e']; exact Spec.remove_actOK s h _ _
-  · rw [hst.1]; exact h
-  · have e := congrArg Prod.fst hst
+  | lookup hh =>
+    simp only [SpecStep] at hst
+    rw [hst.1]; exact h
+  | setHash i hh =>
+    simp only [SpecStep] at hst
+    have e := congrArg Prod.fst hst
     simp only at e
     rw [e]; unfold Spec.setHash
     split
     · simp only [Spec.ActOK, List.length_modify]; exact h
     · exact h
-  · have e := congrArg Prod.fst hst
+  | setActive k =>
+    simp only [SpecStep] at hst
+    have e := congrArg Prod.fst hst
     simp only at e
     rw [e]; unfold Spec.setActive
     split
     · rename_i hk; exact hk
     · exact h
-  · have e := congrArg Prod.fst hst
+  | removeAll =>
+    simp only [SpecStep] at hst
+    have e := congrArg Prod.fst hst
     simp only at e
     rw [e]; simp [Spec.removeAll, Spec.ActOK]
 
@@ -541,6 +953,7 @@ theorem specRun_actOK (s s' : Spec) (ops : List Op) (os : List Out) (hr : SpecRu
   induction hr with
   | nil => exact h
   | cons hst _ ih => exact ih (specStep_actOK _ _ _ _ hst h)
+
 
 
 end RV.Particles
